@@ -629,6 +629,32 @@ theorem C38_client_noretry (jit : Nat → Rat) (extra extOk : Bool) :
     · rw [if_neg hg]
       exact ih _ _ _ round
 
+theorem Aux.cancelPosts_finished (ops : List SessOp) :
+    ∀ t : Bool, cancelPosts .finishedOrNoToken ⟨true, t⟩ ops = 0 := by
+  induction ops with
+  | nil => intro t; rfl
+  | cons op ops ih =>
+    intro t
+    cases op with
+    | cancel => simp [cancelPosts, cancelStep, ih]
+    | storeToken => simp [cancelPosts, ih]
+
+/-- C38_once (cancel, across calls): however `cancel()` calls are interleaved with operations that store a fresh state
+    token — re-entrant calls from `on_log` included — one session POSTs at most one cancel request -/
+theorem C38_cancel_idempotent (s : Sess) (ops : List SessOp) : cancelPosts cancelGuard s ops ≤ 1 := by
+  have hg : cancelGuard = .finishedOrNoToken := by rfl
+  rw [hg]
+  induction ops generalizing s with
+  | nil => simp [cancelPosts]
+  | cons op ops ih =>
+    cases op with
+    | cancel =>
+      have h0 := Aux.cancelPosts_finished ops false
+      simp only [cancelPosts, cancelStep]
+      rw [h0]
+      split <;> omega
+    | storeToken => exact ih ⟨s.finished, true⟩
+
 /-- non-vacuity: the hypotheses of `C38_wait` / `C38_outcome` / `C38_client` are satisfiable (default configuration,
     constant jitter 1/2), and a run of it really re-sends and sleeps -/
 example : validate defaultCfg = none ∧ (∀ n : Nat, (0 : Rat) ≤ (fun _ => (1 : Rat) / 2) n) ∧
